@@ -18,7 +18,10 @@
 (*   "studies" all FrozenStudy objects             get_all_studies                                    *)
 (*   "sattr"   attribute dict f of study s         Study.user_attrs/system_attrs, get_study_*_attrs   *)
 (*   "tattr"   dict f of trial t (ua, sa, params)  Trial.params/user_attrs, get_trial_params/...      *)
-(*   "best"    a best trial of study s             Study.best_trial, get_best_trial                   *)
+(*   "best"    a best trial of study s             get_best_trial                                     *)
+(*   "sbest"   Study.best_trial: with constraints it is documented to fall back to the best feasible*)
+(*             trial; which COMPLETE trial it picks is C12's business — any COMPLETE trial of s,    *)
+(*             with its true fields.                                                                *)
 (*   "pareto"  Study.best_trials: which COMPLETE trials are on the front is not this property's     *)
 (*             business (C12/C15) — any selection of COMPLETE trials, each with its true fields.    *)
 EXTENDS Storage
@@ -38,6 +41,7 @@ ReadOK(S, g, x, v) ==
     [] g = "sattr"   -> LiveS(S, x.s) /\ x.f \in {"ua", "sa"} /\ v = S.studies[x.s][x.f]
     [] g = "tattr"   -> LiveT(S, x.t) /\ x.f \in {"ua", "sa", "params"} /\ v = S.trials[x.t][x.f]
     [] g = "best"    -> BestTrialOK(S, x.s, Ok(v))
+    [] g = "sbest"   -> LiveS(S, x.s) /\ v \in SeqRange(TrialsOf(S, x.s, <<"COMPLETE">>))
     [] g = "pareto"  -> /\ LiveS(S, x.s)
                         /\ LET full == TrialsOf(S, x.s, <<"COMPLETE">>) IN
                              /\ \A i \in 1..Len(v) : v[i] \in SeqRange(full)
@@ -52,6 +56,7 @@ ReadVals(S, g, x) ==
     [] g = "sattr"   -> IF LiveS(S, x.s) THEN {S.studies[x.s][x.f]} ELSE {}
     [] g = "tattr"   -> IF LiveT(S, x.t) THEN {S.trials[x.t][x.f]} ELSE {}
     [] g = "best"    -> {ProjTrial(S, t) : t \in {u \in LiveTrialIds(S) : BestTrialOK(S, x.s, Ok(ProjTrial(S, u)))}}
+    [] g = "sbest"   -> IF LiveS(S, x.s) THEN SeqRange(TrialsOf(S, x.s, <<"COMPLETE">>)) ELSE {}
     [] g = "pareto"  -> IF LiveS(S, x.s)
                         THEN LET full == TrialsOf(S, x.s, <<"COMPLETE">>) IN
                              {[k \in 1..Cardinality(I) |-> full[SeqOfSet(I)[k]]] : I \in SUBSET (1..Len(full))}
